@@ -25,6 +25,21 @@ def mkobj(kind, tag=""):
     if kind in ("iter::Col", "iter::ColMut"): return Obj(kind, [Slice(ZERO, L), Poly.atom("K")]), dict(L=L, K=Poly.atom("K"))
     raise Inconclusive("object kind " + str(kind))
 
+class SelfObj:
+    """a generic receiver (Self: TooDeeOpsMut<T>) of a provided trait method"""
+    def __repr__(s): return "<self>"
+class RowCur:
+    """row cursor obtained from the receiver, positioned before row `pos` (L-NTH)"""
+    def __init__(s, pos): s.pos = pos
+    def __repr__(s): return "rowcur@%r" % (s.pos,)
+class RowRef:
+    def __init__(s, row): s.row = row
+    def __repr__(s): return "row[%r]" % (s.row,)
+class CellRef:
+    def __init__(s, row, col): s.row, s.col = row, col
+    def __repr__(s): return "cell(%r,%r)" % (s.row, s.col)
+
+
 class St:
     def __init__(s): s.env = {}; s.conds = []; s.acc = []; s.notes = []
     def fork(s):
@@ -94,7 +109,7 @@ class Ev:
             if len(p["proj"]) == 1 and p["proj"][0]["k"] == "deref" and isinstance(P.env.get(p["local"]), RefTo):
                 return P.env.get(p["local"])          # reborrow of a reference to a local
             v = s.read(P, p)
-            if not p["proj"] and not isinstance(v, (Slice, Elem)): return RefTo(p["local"], [])   # &local / &mut local
+            if not p["proj"] and not isinstance(v, (Slice, Elem, RowRef, CellRef, SelfObj)): return RefTo(p["local"], [])   # &local / &mut local
             return v        # reborrows and field borrows: the value itself (objects are shared by identity)
         if k == "binop":
             a, b = s.operand(P, r["l"]), s.operand(P, r["r"]); op = r["op"]
@@ -143,8 +158,29 @@ class Ev:
             s.out.append((P, ("panic",))); return []
         args = [s.operand(P, a) for a in t["args"]]
         a0 = args[0] if args else None
+        ref0 = a0 if isinstance(a0, RefTo) else None
         if isinstance(a0, RefTo) and not isinstance(P.env.get(a0.root), (type(None),)) and name not in ("swap", "take"):
             a0 = P.env.get(a0.root)
+        # ---- L-NTH model: a row cursor obtained from the object itself (generic receiver)
+        if isinstance(a0, SelfObj):
+            if name in ("rows_mut", "rows"): return [(P, RowCur(ZERO))]
+            if name == "num_rows": return [(P, Poly.atom("R"))]
+            if name == "num_cols": return [(P, Poly.atom("C"))]
+        if isinstance(a0, RowCur) and name in ("nth", "next") and (fn.get("trait") or "").endswith("Iterator"):
+            k = args[1] if name == "nth" else ZERO
+            if not isinstance(k, Poly): raise Inconclusive("nth(%r)" % (k,))
+            row = a0.pos + k
+            newc = RowCur(row + ONE)
+            if ref0 is not None: P.env[ref0.root] = newc
+            P.acc.append(("nth", row, t["span"]["lo"]))
+            return [(P, Adt("Option", "Some", [RowRef(row)]))]          # None => unwrap panics: that is the bounds check
+        if isinstance(a0, RowRef):
+            if name == "swap_with_slice" and isinstance(args[1], RowRef):
+                P.acc.append(("swaprows", a0.row, args[1].row, t["span"]["lo"])); return [(P, Tup([]))]
+            if name in ("get_unchecked_mut", "get_unchecked") and isinstance(args[1], Poly):
+                P.acc.append(("rowitem", a0.row, args[1], t["span"]["lo"])); return [(P, CellRef(a0.row, args[1]))]
+        if path in ("core::ptr::swap",) and isinstance(args[0], CellRef) and isinstance(args[1], CellRef):
+            P.acc.append(("swapcells", (args[0].row, args[0].col), (args[1].row, args[1].col), t["span"]["lo"])); return [(P, Tup([]))]
         if name in ("deref", "deref_mut", "as_slice", "as_mut_slice", "as_ref", "as_mut", "borrow") and isinstance(a0, Slice): return [(P, a0)]
         if path.startswith("alloc::vec::Vec::<T, A>::len") and isinstance(a0, Slice): return [(P, a0.len())]
         if path.startswith("core::slice::<impl [T]>::") or (isinstance(a0, Slice) and name in ("get_unchecked", "get_unchecked_mut", "index", "index_mut", "len")):
@@ -543,3 +579,93 @@ def r_layout(f):
     if ninc * 4 > max(nfun + ninc, 1):
         R.fail("<rule>", "engine-broken", "%d accessor functions inconclusive: the evaluator, not the code, is broken" % ninc)
     return R, nfun
+
+
+def r_nth(f):
+    """L-NTH (DESIGN 3.4, 10): the provided swap_rows / row_pair_mut / swap of TooDeeOpsMut address exactly the rows
+    (cells) their arguments name: on a fresh rows_mut() cursor nth(a) yields row a and a following nth(k) yields
+    row a + 1 + k; the unwrap of the result is the bounds check."""
+    R = Result("R-NTH")
+    allb = {b.id: b.d for b in f.bodies}
+    n = 0
+    for name in ("swap_rows", "row_pair_mut", "swap"):
+        bs = [b for b in f.fn_bodies if b.name == name and b.trait_provided and b.trait_head == "TooDeeOpsMut"]
+        if not bs:
+            if name == "row_pair_mut":
+                raise AnchorMissing("TooDeeOpsMut::row_pair_mut (named in C13)")
+            continue
+        b = bs[0]
+        pn = b.param_names()
+        args = []
+        for i in range(1, b.arg_count + 1):
+            ty = b.locals[i]
+            nm = pn.get(i, "a%d" % i)
+            if i == 1:
+                args.append(SelfObj())
+            elif ty == "usize":
+                args.append(Poly.atom(nm))
+            elif ty == "(usize, usize)":
+                args.append(Tup([Poly.atom(nm + ".0"), Poly.atom(nm + ".1")]))
+            else:
+                args.append(Unknown(nm))
+        try:
+            ev = Ev(allb, b.d, args)
+            res = ev.run()
+        except Inconclusive as e:
+            R.inconc(b.ident, "engine inconclusive: %s" % e)
+            continue
+        except (KeyError, IndexError, TypeError, AttributeError, RecursionError) as e:
+            R.inconc(b.ident, "engine error %s: %r" % (type(e).__name__, e))
+            continue
+        names = [pn.get(i) for i in range(2, b.arg_count + 1)]
+        bad = []
+        npaths = 0
+        for (P, oc) in res:
+            if oc[0] == "panic":
+                continue
+            npaths += 1
+            conds = saturate(P.conds)
+
+            def same(a, b2):
+                return a == b2 or decide(conds, Cond("==", a - b2)) is True
+            if name == "swap_rows":
+                A, B = Poly.atom(names[0]), Poly.atom(names[1])
+                sw = [a for a in P.acc if a[0] == "swaprows"]
+                if decide(conds, Cond("==", A - B)) is True and not sw:
+                    continue            # equal rows: nothing to do
+                okp = len(sw) == 1 and ((same(sw[0][1], A) and same(sw[0][2], B)) or (same(sw[0][1], B) and same(sw[0][2], A)))
+                if not okp:
+                    bad.append(("swaps rows %s" % [(repr(x[1]), repr(x[2])) for x in sw], P.conds))
+            elif name == "row_pair_mut":
+                A, B = Poly.atom(names[0]), Poly.atom(names[1])
+                ret = oc[1]
+                okp = isinstance(ret, Tup) and len(ret.f) == 2 and isinstance(ret.f[0], RowRef) and isinstance(ret.f[1], RowRef) and same(ret.f[0].row, A) and same(ret.f[1].row, B)
+                if not okp:
+                    bad.append(("returns %r" % (ret,), P.conds))
+            else:
+                c1, c2 = names[0], names[1]
+                want = {(repr(Poly.atom(c1 + ".1")), repr(Poly.atom(c1 + ".0"))), (repr(Poly.atom(c2 + ".1")), repr(Poly.atom(c2 + ".0")))}
+                sw = [a for a in P.acc if a[0] == "swapcells"]
+                okp = len(sw) == 1
+                if okp:
+                    got = [sw[0][1], sw[0][2]]
+                    W1 = (Poly.atom(c1 + ".1"), Poly.atom(c1 + ".0"))
+                    W2 = (Poly.atom(c2 + ".1"), Poly.atom(c2 + ".0"))
+
+                    def cell_same(x, w):
+                        return same(x[0], w[0]) and same(x[1], w[1])
+                    okp = (cell_same(got[0], W1) and cell_same(got[1], W2)) or (cell_same(got[0], W2) and cell_same(got[1], W1))
+                if not okp:
+                    bad.append(("swaps cells %s" % [(repr(x[1]), repr(x[2])) for x in sw], P.conds))
+        n += 1
+        R.inst(b.ident, "on all %d returning paths the rows / cells reached through rows_mut().nth(..) are exactly the ones named by the arguments (L-NTH)" % npaths, not bad and npaths > 0)
+        seen = set()
+        for what, conds in bad:
+            if what in seen:
+                continue
+            seen.add(what)
+            R.fail(b.ident, "nth:%s" % what, "%s: under the path facts {%s} it %s instead of the rows / cells named by its arguments" % (b.ident, ", ".join(sorted(repr(c) for c in conds)), what), b.where())
+        if npaths == 0:
+            R.fail(b.ident, "nth:no-path", "%s has no returning path the model understands" % b.ident, b.where())
+    R.require_floor(n, 2, "provided row-addressing methods")
+    return R, n
